@@ -12,11 +12,12 @@ Open Scope string_scope.
 
 (* every path of every method of this package that touches the shared object follows the lock
    discipline (Common/LockEv.disciplined: reads under a read or write lock, writes under the write
-   lock, every lock released, at most one self-locking call outside a critical section), all on the
-   one lock "randomMu"; every listed method touches the object on some path (guards against an extractor
+   lock, every lock released, at most one self-locking call outside a critical section), the methods of one owner (a type, or the
+   package for plain functions) never naming two different locks (LockEv.all_paths_owner_one_lock; locks and shared objects are
+   found by their declared types, not by name); every listed method touches the object on some path (guards against an extractor
    that finds nothing); the methods the model knows are all there *)
 Lemma locks_backoff_ok :
   all_paths_disciplined lock_paths_backoff = true /\ all_paths_touch lock_paths_backoff = true /\
-  all_paths_one_lock "randomMu" lock_paths_backoff = true /\
+  all_paths_owner_one_lock lock_paths_backoff = true /\
   has_path_methods ["backoff.LinearJitterBackoff"; "backoff.ExponentialJitterBackoff"] lock_paths_backoff = true.
 Proof. repeat split; vm_compute; reflexivity. Qed.
